@@ -1,14 +1,14 @@
 """C07: check configuration (PROP) and MANIFEST texts (META)."""
 import os, sys
 sys.path.insert(0, os.path.dirname(__file__))
-from funnel_common import funnel_job, funnel_conc_job, funnel_shared_job, FUNNEL_RULE, FUNNEL_ASSUME
+from funnel_common import arbiter_job, funnel_job, funnel_conc_job, funnel_shared_job, FUNNEL_RULE, FUNNEL_ASSUME
 
 PROP = {
     "lean_modules": ["ConduitModel.Props.C07", "ConduitModel.Facts.C07", "ConduitModel.Props.ArbiterProps"],
     "jobs": [
         {"harness": "h_pure", "comp": "dlqwindow", "n_quick": 20000, "n_thorough": 700000,
          "why": "verdicts of the real dlqWindow (v1 stream / v2 funnel) differ from the model that is proved equal to the C07 window specification"},
-        funnel_job("C07"), funnel_conc_job("C07"), funnel_shared_job("C07"),
+        funnel_job("C07"), funnel_conc_job("C07"), funnel_shared_job("C07"), arbiter_job(),
     ],
     "rule": "dlqwindow: (size, threshold, outcome sequence | batch list) from a seeded generator biased to small windows; "
             "a case is non-trivial when at least one nack was refused; distinct = distinct case lines. " + FUNNEL_RULE,
